@@ -44,11 +44,21 @@ def _case(draw, unit):
             'dtype': draw(st.sampled_from(['f64', 'f64', 'f64', 'f32'])),
             'shift': [draw(st.integers(-70, 70)), draw(st.integers(-70, 70))],
             'reused': draw(st.integers(0, 3)) == 0,
+            'wave_row': (lambda pick: pick if pick != w else None)(draw(dwtu.wavelet_strategy(max_len=24)))
+            if draw(st.integers(0, 3)) == 0 else None,
             'rx': draw(core.recipe_strategy()), 'k': draw(st.integers(0, 10**6))}
 
 
 def strategy(unit):
     return _case(unit)
+
+
+def wave_arg(case):
+    """A name, or the 4-tuple (col lo, col hi, row lo, row hi) of separate column / row analysis filters."""
+    if not case.get('wave_row'):
+        return case['wave']
+    wc, wr = pywt.Wavelet(case['wave']), pywt.Wavelet(case['wave_row'])
+    return tuple(np.array(a) for a in (wc.dec_lo, wc.dec_hi, wr.dec_lo, wr.dec_hi))
 
 
 def ref_swt2(x, w, J):
@@ -69,11 +79,16 @@ def run_case(case):
             'nonsquare' if H != W else None, 'L>=20' if L >= 20 else None)
     r.nontrivial = L >= 4 or J >= 2
     def make(wname):
+        if wname == w:
+            wname = wave_arg(case)
         if case['mode'] == 'default':
             return SWTForward(J=J, wave=wname)
         return SWTForward(J=J, wave=wname, mode=case['mode'])
+    refw = (w, case['wave_row']) if case.get('wave_row') else w
+    L = max(L, dwtu.flen(case['wave_row'])) if case.get('wave_row') else L
+    r.label('separate_row_col_wavelets' if case.get('wave_row') else None)
     with dwtu.default_dtype(tdt):
-        sib = dwtu.sibling(w) if case.get('reused') else None
+        sib = dwtu.sibling(w) if (case.get('reused') and not case.get('wave_row')) else None
         if sib is None:
             mod = make(w)
         else:
@@ -105,7 +120,7 @@ def run_case(case):
         e = check_struct(out, B.shape[0], 1)
         if e:
             return r.fail('structure', e)
-        want = np.concatenate([t.reshape(t.shape[0], -1) for t in ref_swt2(B, w, J)], axis=1)
+        want = np.concatenate([t.reshape(t.shape[0], -1) for t in ref_swt2(B, refw, J)], axis=1)
         got = flat(out)
         g = max(1.0, float(np.abs(want).sum(0).max()))
         tol = (64 * core.EPS32 if f32 else 1e-9) * g
@@ -123,7 +138,7 @@ def run_case(case):
     e = check_struct(out, N, C)
     if e:
         return r.fail('structure', e)
-    ref = ref_swt2(x, w, J)
+    ref = ref_swt2(x, refw, J)
     want = np.concatenate([t.reshape(N, -1) for t in ref], axis=1)
     got = flat(out)
     if g == 1.0:
